@@ -39,8 +39,9 @@ HDR = ('import copy, pickle, operator\n'
 K = ('a', 'b', 'c', None, 0)
 CLASSES = [('OrderedMultiDict', getattr(dictutils, 'OrderedMultiDict', None),
             'from boltons.dictutils import OrderedMultiDict as C\n'),
-           ('FastIterOrderedMultiDict', getattr(dictutils, 'FastIterOrderedMultiDict', None),
-            'from boltons.dictutils import FastIterOrderedMultiDict as C\n'),
+           # FastIterOrderedMultiDict is NOT in scope: the statement is about OrderedMultiDict (OMD/MultiDict aliases) and
+           # QueryParamDict; the undocumented FastIter subclass has skip-list defects of its own (DESIGN.md, findings
+           # outside the given properties)
            ('QueryParamDict', getattr(urlutils, 'QueryParamDict', None),
             'from boltons.urlutils import QueryParamDict as C\n')]
 FEATURE_ORDER = ['one-shot iterator argument', 'argument repeats a key', 'a repeated argument key is not yet present',
